@@ -566,7 +566,7 @@ impl Check for C07 {
         "C07"
     }
     fn rule(&self) -> &'static str {
-        "case = any valid configuration (1-4 modes with sorted transitions, lookaheads of both polarities, nullable patterns) x one input of arbitrary scalar values (alphabet, boundary code points of the 1/2/3/4-byte ranges, uniform scalars) x a history of next / peek_n / set_mode; oracle = invariant: every span non-empty, within the input, on character boundaries, starting at or after the previous end; at most one token per character; None is sticky; no panic in build or scan; next() called at most #chars+4 times so a non-advancing iterator is caught; non-trivial = input with a >= 2-byte character and at least one token and one skipped character"
+        "case = any valid configuration (1-4 modes with sorted transitions, lookaheads of both polarities, nullable patterns) x one input of arbitrary scalar values (alphabet, boundary code points of the 1/2/3/4-byte ranges, uniform scalars) x a history of next / peek_n / set_mode / set_offset / with_offset (any boundary, len, beyond) / peek_n+advance_to; oracle = invariant: every span non-empty, within the input, on character boundaries, starting at or after the previous end (after a reset: at or after the reset offset); at most one token per character since the last reset; None is sticky; no panic in build or scan; next() called at most #chars+4 times so a non-advancing iterator is caught; non-trivial = input with a >= 2-byte character and at least one token and one skipped character"
     }
     fn cases(&self, thorough: bool) -> usize {
         if thorough {
@@ -603,15 +603,30 @@ impl Check for C07 {
             input = input.chars().take(p.max_input_chars).collect();
         }
         case.inputs.push(input);
-        let nops = d.below(6);
+        let nops = d.below(8);
+        let text = Text::new(case.input());
+        let gen_off = |d: &mut Dec| -> usize {
+            match d.weighted(&[8, 1, 1]) {
+                0 => text.offs[d.below(text.offs.len())],
+                1 => text.byte_len(),
+                _ => text.byte_len() + 1 + d.below(3),
+            }
+        };
         for _ in 0..nops {
-            case.ops.push(match d.weighted(&[4, 3, 2]) {
+            let op = match d.weighted(&[6, 3, 2, 3, 1, 2]) {
                 0 => Op::Next,
                 1 => Op::PeekN { n: d.below(5) },
-                _ => Op::SetMode {
+                2 => Op::SetMode {
                     m: d.below(case.modes.len()),
                 },
-            });
+                3 => Op::SetOffset { o: gen_off(d) },
+                4 => Op::WithOffset { o: gen_off(d) },
+                _ => {
+                    let n = 1 + d.below(3);
+                    Op::PeekAdvance { n, k: d.below(n) }
+                }
+            };
+            case.ops.push(op);
         }
         case
     }
@@ -626,6 +641,9 @@ impl Check for C07 {
             match op {
                 Op::Next | Op::PeekN { .. } => {}
                 Op::SetMode { m } if *m < case.modes.len() => {}
+                Op::SetOffset { o } | Op::WithOffset { o }
+                    if *o > case.input().len() || case.input().is_char_boundary(*o) => {}
+                Op::PeekAdvance { n, k } if k < n => {}
                 _ => return Ok(discard("discard_op")),
             }
         }
@@ -681,6 +699,9 @@ impl Check for C07 {
             let mut tokens = 0usize;
             let mut consumed_chars = 0usize;
             let mut ended = false;
+            let mut total_tokens = 0usize;
+            // number of characters in front of the last reset position
+            let budget_base = std::cell::Cell::new(0usize);
             let handle = |m: Option<scnr::Match>,
                               prev_end: &mut usize,
                               tokens: &mut usize,
@@ -701,10 +722,10 @@ impl Check for C07 {
                         *prev_end = t.end;
                         *tokens += 1;
                         *consumed_chars += input[t.start..t.end].chars().count();
-                        if *tokens > n {
+                        if *tokens > n - budget_base.get() {
                             return Err(Failure::new(
                                 "c07.too_many_tokens",
-                                "more tokens than input characters",
+                                "more tokens than input characters since the last reset",
                             ));
                         }
                     }
@@ -739,6 +760,40 @@ impl Check for C07 {
                         }
                     }
                     Op::SetMode { m } => it.set_mode(*m),
+                    Op::SetOffset { o } | Op::WithOffset { o } => {
+                        if matches!(op, Op::WithOffset { .. }) {
+                            it = scanner.find_iter(input).with_offset(*o);
+                        } else {
+                            it.set_offset(*o);
+                        }
+                        let oo = (*o).min(input.len());
+                        prev_end = oo;
+                        ended = false;
+                        total_tokens += tokens;
+                        tokens = 0;
+                        budget_base.set(text.char_index(oo).unwrap_or(0));
+                    }
+                    Op::PeekAdvance { n: k, k: j } => {
+                        let (v, target) = match it.peek_n(*k) {
+                            scnr::PeekResult::Matches(v) | scnr::PeekResult::MatchesReachedEnd(v) => (v, None),
+                            scnr::PeekResult::MatchesReachedModeSwitch((v, m)) => (v, Some(m)),
+                            scnr::PeekResult::NotFound => (vec![], None),
+                        };
+                        if *j < v.len() {
+                            let mut pe = prev_end;
+                            for m in &v[..=*j] {
+                                check_span(&Tok::of(m), pe, "peek_n()")?;
+                                pe = m.end();
+                            }
+                            it.advance_to(v[*j].end());
+                            prev_end = v[*j].end();
+                            if *j == v.len() - 1 {
+                                if let Some(m) = target {
+                                    it.set_mode(m);
+                                }
+                            }
+                        }
+                    }
                     _ => {}
                 }
             }
@@ -759,7 +814,7 @@ impl Check for C07 {
                 let m = it.next();
                 handle(m, &mut prev_end, &mut tokens, &mut consumed_chars, &mut ended)?;
             }
-            Ok((tokens, consumed_chars))
+            Ok((tokens + total_tokens, consumed_chars))
         });
         let (tokens, consumed) = match r {
             Err(p) => {
